@@ -193,7 +193,7 @@ PROPS = {
                                              "operations are made deterministic (unencrypted content, fixed timestamps, prebuilt records) so that every leg has the same before/after dumps",
                                              "an injected commit failure rolls the transaction back (nothing durable)"],
         "technique": "deterministic simulation with exhaustive fault enumeration per sampled operation: crash image and injected error at every storage boundary on the real store, atomicity / structural / retry oracles",
-        "level_text": "Operations and pre-states are sampled from a seed; for each sampled operation the storage boundaries are enumerated completely: one crash image before and after every call and one injected error (single or sticky) at every call, each judged by the all-or-nothing, structural and retry oracles.",
+        "level_text": "Operations and pre-states are sampled from a seed; for each sampled operation the storage boundaries are enumerated completely (operations crossing more than 60 boundaries - the 500+ change batch - get 3 first, 3 last and 5 seeded boundaries instead): one crash image before and after every call and one injected error (single or sticky) at every call, each judged by the all-or-nothing, structural and retry oracles.",
         "level_note": "real storage stack down to SQLite; power-loss semantics not modelled; boundaries = calls through the anystore interfaces",
         "expected_probes": ["image=before", "image=after", "operation-reported-the-error"],
     },
